@@ -14,6 +14,7 @@ import Lumina.Proofs.Tasks
 
 namespace Lumina.Props.C42
 open Lumina.Model.Tasks Lumina.Proofs.Tasks
+open Lumina.Spec.C42 (Ev specSafe specLive)
 
 /-- "A join handle resolves only after its spawned task has finished, panicked or been cancelled" -/
 theorem resolved_only_after_end_partial {s : State} (h : Reachable s) (i : Nat)
@@ -204,6 +205,44 @@ theorem ended_is_final_partial {s s' : State} {l : Label} {i : Nat} {t t' : MTas
             rw [ht] at ht'; cases ht'; exact ⟨hpc, rfl⟩
       · cases hs
     · cases hs
+
+/-- MODEL ⊨ SPEC (clause 1, over histories): for EVERY run of the model (any number of tasks, any
+    interleaving, any length) the trace of events an observer sees — spawns, polls of the inner
+    futures, their drops (`ended`), completed cancellations, and joins returning as early as the
+    token allows — passes the independent checker `Spec.C42.specSafe`: no `joined i` before
+    `ended i`. -/
+theorem trace_spec_safe_partial {ls : List Label} {s : State} {tr : List Ev}
+    (h : traceOf init ls = some (s, tr)) : specSafe [] tr = true :=
+  trace_safe (s := init) (seen := []) (fun i t ht _ => by simp [init] at ht) h
+
+/-- MODEL ⊨ SPEC (clause 2, over histories): for every run that ends with no ended task left
+    unresolved (the drop of the task's locals has run for all of them — weak fairness of the
+    `dropGuard` steps), the trace passes `Spec.C42.specLive`: every `ended i` has its `joined i`. -/
+theorem trace_spec_live_partial {ls : List Label} {s : State} {tr : List Ev}
+    (h : traceOf init ls = some (s, tr))
+    (hq : ∀ (i : Nat) (t : MTask), s.tasks[i]? = some t → isEnded t.pc = true → t.triggered = true) :
+    specLive tr = true := by
+  have inv : LiveInv s ([] ++ tr) :=
+    live_run (s := init) (pre := []) ⟨by simp, fun i t ht _ => by simp [init] at ht⟩ h
+  simp only [List.nil_append] at inv
+  unfold specLive
+  rw [List.all_eq_true]
+  intro e he
+  cases e with
+  | ended i =>
+    obtain ⟨t, ht, hend⟩ := inv.endedOnly i he
+    have := inv.joinedAll i t ht (hq i t ht hend)
+    simpa using this
+  | _ => rfl
+
+/-- non-vacuity of `trace_spec_live_partial`: a run with a finished, a panicked and a cancelled
+    task, all resolved -/
+example : ∃ s tr, traceOf init [.spawn false 0, .spawn false 0, .spawn true 1, .begin 0, .inner 0 .ready,
+      .begin 1, .inner 1 .panic, .cancel 1, .begin 2, .dropGuard 0, .dropGuard 2, .dropGuard 1] = some (s, tr) ∧
+    tr = [.spawn 0 false 0, .spawn 1 false 0, .spawn 2 true 1, .poll 0, .ended 0, .poll 1, .ended 1,
+          .cancelDone 1, .ended 2, .joined 0, .joined 2, .joined 1] ∧
+    Lumina.Spec.C42.specTrace tr = true :=
+  ⟨_, _, rfl, rfl, by decide⟩
 
 /-- NEGATIVE CONTROL (non-vacuity): with `let _ = guard;` (the guard dropped at the task's first
     poll instead of living in the future) the join handle resolves while the task is running -/
